@@ -88,6 +88,10 @@ class ParserFactory:
         assert not self.exhausted, 'Must call get_parser() to reset state.'
         self.path = path
         parsed_data = self.yacc.parse(data, lexer=self.lexer, debug=self.debug)
+        if parsed_data is None:
+            # The parser could not recover from a syntax error, which has
+            # already been recorded in self.errors.
+            parsed_data = []
         # It generally makes sense for lexer errors to come first, because
         # those can be the root of parser errors. Also, since we only show one
         # error max right now, it's best to show the lexing one.
@@ -161,7 +165,9 @@ class ParserFactory:
             p[0] = AstNamespace(
                 self.path, p.lineno(1), p.lexpos(1), p[2], doc)
         else:
-            raise ValueError('Expected namespace keyword')
+            self.errors.append(
+                ("Expected 'namespace' keyword, got %r." % p[1],
+                 p.lineno(1), self.path))
 
     def p_import(self, p):
         'import : IMPORT ID NL'
@@ -178,7 +184,9 @@ class ParserFactory:
             if has_annotations:
                 p[0].set_annotations(p[7])
         else:
-            raise ValueError('Expected alias keyword')
+            self.errors.append(
+                ("Expected 'alias' keyword, got %r." % p[1],
+                 p.lineno(1), self.path))
 
     def p_nl(self, p):
         'NL : NEWLINE'
@@ -866,7 +874,11 @@ class ParserFactory:
 
     # Called by the parser whenever a token doesn't match any rule.
     def p_error(self, token):
-        assert token is not None, "Unknown error, please report this."
+        if token is None:
+            # The input ended in the middle of a construct.
+            self.errors.append(
+                ('Unexpected end of input.', None, self.path))
+            return
         logger.debug('Unexpected %s(%r) at line %d',
                      token.type,
                      token.value,
